@@ -1066,6 +1066,8 @@ pub(crate) fn eval_up_to(
     // so stopping on a statement still produces a value to inspect.
     let mut items = items.to_vec();
     set_observed_expr_value_used(&mut items, expr_id);
+    #[cfg(wilfred_garden_verif)]
+    crate::verif_runner::note_observed(expr_id.0, &items);
 
     let Some(item) = items
         .iter()
